@@ -55,6 +55,8 @@ pub enum Kind {
     BigInt,
     Double,
     ListInt,
+    /// a nested UDT whose Rust carrier is itself a derived struct (`Leaf::nested` / `DbField::fields`)
+    Udt,
 }
 
 impl Kind {
@@ -67,9 +69,13 @@ impl Kind {
             Kind::BigInt => "bigint",
             Kind::Double => "double",
             Kind::ListInt => "list<int>",
+            Kind::Udt => "udt",
         }
     }
     pub fn from_name(s: &str) -> Option<Kind> {
+        if s == "udt" {
+            return Some(Kind::Udt);
+        }
         Kind::ALL.into_iter().find(|k| k.name() == s)
     }
 }
@@ -84,6 +90,8 @@ pub enum Val {
     BigInt(i64),
     Double(u64),
     ListInt(Vec<i32>),
+    /// value of a nested derived struct: one entry per leaf of that struct
+    Udt(Vec<Val>),
 }
 
 impl Val {
@@ -96,6 +104,7 @@ impl Val {
             Val::BigInt(_) => Kind::BigInt,
             Val::Double(_) => Kind::Double,
             Val::ListInt(_) => Kind::ListInt,
+            Val::Udt(_) => Kind::Udt,
         })
     }
 
@@ -116,6 +125,7 @@ impl Val {
                 }
                 out
             }
+            Val::Udt(_) => panic!("reference: a nested struct value is encoded by expect_ser, which knows the database field list"),
         })
     }
 
@@ -159,6 +169,7 @@ impl Val {
                 }
                 Val::ListInt(xs)
             }
+            Kind::Udt => return Err("reference: nested UDT cells are decoded by cells_from_body".into()),
         })
     }
 
@@ -174,7 +185,19 @@ impl Val {
             Kind::BigInt => Val::BigInt(0),
             Kind::Double => Val::Double(0f64.to_bits()),
             Kind::ListInt => Val::ListInt(Vec::new()),
+            Kind::Udt => panic!("reference: the default of a nested struct needs its model (default_of_leaf)"),
         }
+    }
+}
+
+/// `Default::default()` of the Rust carrier of a leaf (derived `Default` of a nested struct = defaults of its fields).
+pub fn default_of_leaf(leaf: &Leaf) -> Val {
+    if leaf.optional {
+        return Val::Null;
+    }
+    match &leaf.nested {
+        Some(m) => Val::Udt(m.leaves.iter().map(default_of_leaf).collect()),
+        None => Val::default_for(leaf.kind, false),
     }
 }
 
@@ -249,6 +272,8 @@ pub struct Leaf {
     pub skip: bool,
     pub allow_missing: bool,
     pub default_when_null: bool,
+    /// `kind == Kind::Udt`: the model of the derived struct that carries the nested UDT
+    pub nested: Option<Box<Model>>,
 }
 
 #[derive(Clone, Debug)]
@@ -259,10 +284,28 @@ pub struct Model {
     pub leaves: Vec<Leaf>,
 }
 
-#[derive(Clone, Debug, PartialEq, Eq, Hash)]
+#[derive(Clone, PartialEq, Eq, Hash)]
 pub struct DbField {
     pub name: String,
     pub kind: Kind,
+    /// `kind == Kind::Udt`: the nested UDT's field list
+    pub fields: Vec<DbField>,
+}
+
+impl std::fmt::Debug for DbField {
+    fn fmt(&self, f: &mut std::fmt::Formatter<'_>) -> std::fmt::Result {
+        if self.kind == Kind::Udt {
+            write!(f, "{} udt{:?}", self.name, self.fields)
+        } else {
+            write!(f, "{} {}", self.name, self.kind.name())
+        }
+    }
+}
+
+impl DbField {
+    pub fn leaf(name: &str, kind: Kind) -> DbField {
+        DbField { name: name.to_string(), kind, fields: Vec::new() }
+    }
 }
 
 #[derive(Clone, Copy, PartialEq, Eq, Debug)]
@@ -419,9 +462,20 @@ pub fn bind_names(m: &Model, db: &[DbField], target: Target, dir: Dir) -> Bindin
 /// of a serialization in which every mismatched field carries a non-null value.
 pub fn bind(m: &Model, db: &[DbField], target: Target, dir: Dir) -> Binding {
     let mut b = bind_names(m, db, target, dir);
-    if !b.mismatched.is_empty() && !b.repeated {
+    if !b.repeated {
         let mut res = (b.verdict, b.reason);
-        worst(&mut res, Verdict::MustReject, "type-mismatch");
+        if !b.mismatched.is_empty() {
+            worst(&mut res, Verdict::MustReject, "type-mismatch");
+        }
+        // a nested derived struct type-checks its own field list
+        for (i, j) in b.leaf_to_db.iter().enumerate() {
+            if let (Some(j), Some(nm)) = (j, &m.leaves[i].nested) {
+                if db[*j].kind == Kind::Udt {
+                    let inner = bind(nm, &db[*j].fields, Target::Udt, dir);
+                    worst(&mut res, inner.verdict, inner.reason);
+                }
+            }
+        }
         b.verdict = res.0;
         b.reason = res.1;
     }
@@ -462,11 +516,36 @@ pub fn expect_ser(m: &Model, vals: &[Val], db: &[DbField], target: Target) -> Se
     }
     let mut cells: Vec<Option<Vec<u8>>> = vec![None; db.len()];
     let mut min_cells = 0usize;
+    let mut res = (b.verdict, b.reason);
     for (i, j) in b.leaf_to_db.iter().enumerate() {
         if let Some(j) = *j {
-            cells[j] = vals[i].encode();
             min_cells = min_cells.max(j + 1);
+            match (&m.leaves[i].nested, &vals[i]) {
+                (Some(nm), Val::Udt(inner_vals)) if db[j].kind == Kind::Udt => {
+                    // the nested struct serializes itself against the nested field list; the expected
+                    // cell is the canonical body (every nested position written)
+                    let inner = expect_ser(nm, inner_vals, &db[j].fields, Target::Udt);
+                    worst(&mut res, inner.verdict, inner.reason);
+                    let mut body = Vec::new();
+                    for c in &inner.cells {
+                        write_cell(&mut body, c.as_deref());
+                    }
+                    cells[j] = Some(body);
+                }
+                (Some(nm), Val::Null) if db[j].kind == Kind::Udt => {
+                    // None: nothing of the nested struct runs; undocumented whether its field list is checked
+                    if bind(nm, &db[j].fields, Target::Udt, Dir::Ser).verdict != Verdict::MustAccept {
+                        worst(&mut res, Verdict::Either, "null-into-mismatched-type-undocumented");
+                    }
+                }
+                (Some(_), _) => {} // bound to a non-UDT column: already in `mismatched`
+                (None, v) => cells[j] = v.encode(),
+            }
         }
+    }
+    if !b.repeated {
+        b.verdict = res.0;
+        b.reason = res.1;
     }
     if target == Target::Row {
         min_cells = db.len();
@@ -475,16 +554,57 @@ pub fn expect_ser(m: &Model, vals: &[Val], db: &[DbField], target: Target) -> Se
 }
 
 /// Compare the cells the driver produced with the expectation. `Err` describes the first difference.
-pub fn compare_ser_cells(exp: &SerExpect, got: &[Option<Vec<u8>>]) -> Result<(), String> {
+pub fn compare_ser_cells(exp: &SerExpect, db: &[DbField], got: &[Option<Vec<u8>>]) -> Result<(), String> {
     if got.len() < exp.min_cells || got.len() > exp.cells.len() {
         return Err(format!("{} cells written, expected between {} and {}", got.len(), exp.min_cells, exp.cells.len()));
     }
     for (pos, g) in got.iter().enumerate() {
-        if *g != exp.cells[pos] {
+        let g = match (g, db[pos].kind) {
+            (Some(body), Kind::Udt) => Some(canonical_body(&db[pos].fields, body).map_err(|e| format!("database position {pos}: nested UDT: {e}"))?),
+            _ => g.clone(),
+        };
+        if g != exp.cells[pos] {
             return Err(format!("database position {pos}: wrote {:?}, expected {:?}", g, exp.cells[pos]));
         }
     }
     Ok(())
+}
+
+/// A UDT body with every position written (omitted trailing fields as nulls), nested bodies likewise.
+pub fn canonical_body(fields: &[DbField], body: &[u8]) -> Result<Vec<u8>, String> {
+    let cells = split_cells(body)?;
+    if cells.len() > fields.len() {
+        return Err(format!("{} cells for a UDT of {} fields", cells.len(), fields.len()));
+    }
+    let mut out = Vec::new();
+    for (pos, f) in fields.iter().enumerate() {
+        match (cells.get(pos), f.kind) {
+            (Some(Some(b)), Kind::Udt) => write_cell(&mut out, Some(&canonical_body(&f.fields, b)?)),
+            (Some(Some(b)), _) => write_cell(&mut out, Some(b)),
+            _ => write_cell(&mut out, None),
+        }
+    }
+    Ok(out)
+}
+
+/// Reference decoder: what a UDT body / row delivers at each position of `fields`.
+pub fn cells_from_body(fields: &[DbField], body: &[u8]) -> Result<Vec<Cell>, String> {
+    let cells = split_cells(body)?;
+    if cells.len() > fields.len() {
+        return Err(format!("{} cells for {} fields", cells.len(), fields.len()));
+    }
+    fields
+        .iter()
+        .enumerate()
+        .map(|(pos, f)| {
+            Ok(match (cells.get(pos), f.kind) {
+                (None, _) => Cell::Absent,
+                (Some(None), _) => Cell::Null,
+                (Some(Some(b)), Kind::Udt) => Cell::Udt(cells_from_body(&f.fields, b)?),
+                (Some(Some(b)), k) => Cell::Value(Val::decode(k, Some(b))?),
+            })
+        })
+        .collect()
 }
 
 /// What the database delivered at one position.
@@ -494,6 +614,8 @@ pub enum Cell {
     Absent,
     Null,
     Value(Val),
+    /// a nested UDT value: what it delivers at each position of `DbField::fields`
+    Udt(Vec<Cell>),
 }
 
 #[derive(Clone, Debug)]
@@ -510,12 +632,20 @@ pub fn expect_de(m: &Model, db: &[DbField], cells: &[Cell], target: Target) -> D
     let mut res = (b.verdict, b.reason);
     let mut vals = Vec::with_capacity(m.leaves.len());
     for (i, leaf) in m.leaves.iter().enumerate() {
-        let dflt = Val::default_for(leaf.kind, leaf.optional);
+        let dflt = default_of_leaf(leaf);
         let v = match b.leaf_to_db[i] {
             // skipped, or allow_missing and not in the database
             None => dflt,
             Some(j) => match &cells[j] {
                 Cell::Value(v) => v.clone(),
+                Cell::Udt(inner_cells) => match &leaf.nested {
+                    Some(nm) if db[j].kind == Kind::Udt => {
+                        let inner = expect_de(nm, &db[j].fields, inner_cells, Target::Udt);
+                        worst(&mut res, inner.verdict, inner.reason);
+                        Val::Udt(inner.vals)
+                    }
+                    _ => dflt, // type mismatch: already MustReject
+                },
                 Cell::Absent | Cell::Null => {
                     if leaf.optional {
                         Val::Null
@@ -555,6 +685,10 @@ pub fn encode_cells(cells: &[Cell]) -> Vec<u8> {
                 assert!(!ended, "Absent cells must form a suffix");
                 write_cell(&mut out, v.encode().as_deref())
             }
+            Cell::Udt(inner) => {
+                assert!(!ended, "Absent cells must form a suffix");
+                write_cell(&mut out, Some(&encode_cells(inner)))
+            }
         }
     }
     out
@@ -565,10 +699,10 @@ mod tests {
     use super::*;
 
     fn leaf(n: &str, k: Kind) -> Leaf {
-        Leaf { rust_name: n.into(), db_name: n.into(), kind: k, optional: false, skip: false, allow_missing: false, default_when_null: false }
+        Leaf { rust_name: n.into(), db_name: n.into(), kind: k, optional: false, skip: false, allow_missing: false, default_when_null: false, nested: None }
     }
     fn f(n: &str, k: Kind) -> DbField {
-        DbField { name: n.into(), kind: k }
+        DbField::leaf(n, k)
     }
 
     // pinned from the repo's macros_tests.rs expectations (loose ordering UDT test)
